@@ -195,10 +195,55 @@ def do_capture(c):
         if captured:
             air.append(a.hex())
             plain.append(pdu.hex())
-    r = do_decryptor({"keys": c["keys"], "mats": [c["mat"]], "pdus": air})
+    if "esi" in c:
+        r = do_decryptor_sniffer_way(c, air)
+    else:
+        r = do_decryptor({"keys": c["keys"], "mats": [c["mat"]], "pdus": air})
     r["air"] = air
     r["plain"] = plain
     return r
+
+
+def do_decryptor_sniffer_way(c, air):
+    """Feed the material the way whad/ble/connector/sniffer.py does: the cleartext LL_ENC_REQ, LL_ENC_RSP and
+    LL_START_ENC_REQ PDUs (dissected from bytes) go through EncryptedSessionInitialization; when it reports
+    `encryption`, its crypto_material is handed to LinkLayerDecryptor.add_crypto_material; every data packet
+    (the three setup PDUs included) is passed to attempt_to_decrypt, MissingCryptographicMaterial swallowed."""
+    from whad.ble.crypto import EncryptedSessionInitialization
+    from whad.ble.exceptions import MissingCryptographicMaterial
+    from scapy.layers.bluetooth4LE import BTLE_CTRL, LL_ENC_REQ, LL_ENC_RSP, LL_START_ENC_REQ
+    skdm, ivm, skds, ivs = c["mat"]
+    setup = [BTLE_DATA(LLID=3) / BTLE_CTRL() / LL_ENC_REQ(rand=c["esi"]["rand"], ediv=c["esi"]["ediv"], skdm=skdm, ivm=ivm),
+             BTLE_DATA(LLID=3) / BTLE_CTRL() / LL_ENC_RSP(skds=skds, ivs=ivs),
+             BTLE_DATA(LLID=3) / BTLE_CTRL() / LL_START_ENC_REQ()]
+    dec = LinkLayerDecryptor(*[bytes.fromhex(k) for k in c["keys"]])
+    esi = EncryptedSessionInitialization()
+    out, setup_obs = [], []
+    def sniff(raw_pdu, sink):
+        pkt = BTLE(struct.pack("<I", 0x50655f3a) + raw_pdu + b"\x11\x22\x33")
+        esi.process_packet(pkt)
+        if esi.encryption:
+            dec.add_crypto_material(*esi.crypto_material)
+            esi.reset()
+        try:
+            res, ok = dec.attempt_to_decrypt(pkt[BTLE])
+        except MissingCryptographicMaterial:
+            sink.append({"k": 3, "d": "MissingCryptographicMaterial"})
+            return
+        except Exception as e:  # noqa
+            sink.append({"k": 3, "d": type(e).__name__})
+            return
+        if res is None:
+            sink.append({"k": 0, "d": "", "ok": bool(ok)})
+        else:
+            sink.append({"k": 1, "d": bytes(res).hex(), "ok": bool(ok)})
+    for p in setup:
+        sniff(bytes(p), setup_obs)
+    for hx in air:
+        sniff(bytes.fromhex(hx), out)
+    final = [[k.hex(), m.master_cnt, m.slave_cnt] for k, m in dec.managers.items()]
+    return {"obs": out, "final": final, "setup": setup_obs,
+            "materials": [list(t) for t in zip(dec.master_skd, dec.master_iv, dec.slave_skd, dec.slave_iv)]}
 
 
 # ---- the real LinkLayer of the BLE stack: encryption start procedure (session key handed to phy) ----
